@@ -309,6 +309,9 @@ func mkEq(a, b *Term) *Term {
 		if a == b {
 			return tTrue
 		}
+		if a.Op == "uf" && b.Op == "uf" && a.Name == "H" && b.Name == "H" && len(a.Args) == 1 && len(b.Args) == 1 {
+			return mkEq(a.Args[0], b.Args[0]) // what is left after stripping common text are two digests
+		}
 		if a.isConst() && b.isConst() {
 			return mkBool(constEq(a, b))
 		}
